@@ -153,7 +153,7 @@ def ray_model(f, w, pos: str, area: str) -> dict:
 def run(index: RepoIndex, rep) -> None:
     rep.rule('C19.R5', 'ray samples keep the row and the column coordinate apart (axis typing, E14)', floor=1)
     from ..axes import axis_rule
-    axis_rule(index, rep, 'C19.R5', ('gym_gridverse/utils/raytracing.py',), floor=8)
+    axis_rule(index, rep, 'C19.R5', ('gym_gridverse/utils/raytracing.py',), floor=4)
     rep.rule('C19.R1', 'compute_ray: origin in area or ValueError; cells cut by '
              'takewhile(area.contains)', floor=3)
     rep.rule('C19.R2', 'rays start at the origin cell and are de-duplicated', floor=3)
